@@ -105,7 +105,7 @@ class kPathCover(pathmodel.AbstractPathModelDAG):
             node_flow_attr = str(id(G_with_flow_attr)) + "_flow_attr"
             for node in G_with_flow_attr.nodes():
                 G_with_flow_attr.nodes[node][node_flow_attr] = 0 # any dummy value
-            self.G_internal = nedg.NodeExpandedDiGraph(G_with_flow_attr, node_flow_attr=node_flow_attr)
+            self.G_internal = nedg.NodeExpandedDiGraph(G_with_flow_attr, node_flow_attr=node_flow_attr, node_length_attr=length_attr)
             subpath_constraints_internal = self.G_internal.get_expanded_subpath_constraints(subpath_constraints)
             
             edges_to_ignore_internal = self.G_internal.edges_to_ignore
